@@ -90,3 +90,41 @@ theorem chunks_one {α} (l : List α) : chunks 1 l = l.map fun x => [x] := by
     simp [ih]
 
 end Verif.C06
+
+namespace Verif.C06
+open Verif.Py
+
+/-- `searchsortedLeft` is characterised by its defining property on a sorted list. -/
+theorem searchsortedLeft_unique (l : List Int) (hs : l.Pairwise (· ≤ ·)) (v : Int) (m : Nat) (hm : m ≤ l.length)
+    (h : ∀ k (hk : k < l.length), k < m ↔ l[k] < v) : searchsortedLeft l v = m := by
+  have hle := searchsortedLeft_le_length l v
+  by_cases hlt : searchsortedLeft l v < m
+  · have h1 := (h (searchsortedLeft l v) (by omega)).mp hlt
+    have h2 := (lt_searchsortedLeft_iff l hs v (searchsortedLeft l v) (by omega)).mpr h1
+    omega
+  · by_cases hgt : m < searchsortedLeft l v
+    · have h1 := (lt_searchsortedLeft_iff l hs v m (by omega)).mp hgt
+      have h2 := (h m (by omega)).mpr h1
+      omega
+    · omega
+
+theorem pairwise_take_drop (l : List Int) (hs : l.Pairwise (· ≤ ·)) (i j : Nat) :
+    ((l.take j).drop i).Pairwise (· ≤ ·) :=
+  (hs.sublist (List.take_sublist j l)).sublist (List.drop_sublist i _)
+
+/-- `searchsorted` on a window `[i, j)` of a sorted list is the clamped global position, re-based. -/
+theorem searchsortedLeft_take_drop (l : List Int) (hs : l.Pairwise (· ≤ ·)) (i j : Nat) (hij : i ≤ j)
+    (hj : j ≤ l.length) (v : Int) :
+    searchsortedLeft ((l.take j).drop i) v = max i (min (searchsortedLeft l v) j) - i := by
+  apply searchsortedLeft_unique _ (pairwise_take_drop l hs i j)
+  · simp only [List.length_drop, List.length_take]; omega
+  · intro k hk
+    simp only [List.length_drop, List.length_take] at hk
+    have hk' : i + k < l.length := by omega
+    have e : ((l.take j).drop i)[k] = l[i + k] := by
+      simp [List.getElem_drop, List.getElem_take]
+    rw [e]
+    have := lt_searchsortedLeft_iff l hs v (i + k) hk'
+    omega
+
+end Verif.C06
